@@ -4,8 +4,12 @@ Everything is read from the AST of the datatype package; nothing is imported or 
 
   grammar side   TimexRegex.timexRegex  ->  per family the list of patterns  ->  per pattern its *shapes*
                  (sequences of literal text and named groups; optional parts and top-level alternations are
-                 expanded)  ->  through Timex.assign_properties / the unit handlers its *field shapes*
-                 (which Timex field every group is written to, with which conversion).
+                 expanded)  ->  its *field shapes*: the syntax tree of Timex.assign_properties (and whatever it calls)
+                 is run by a small whitelisting interpreter on the group dictionary of every shape with representative
+                 texts, which tabulates the field every group is written to and with which conversion - whether the
+                 code is an if/elif chain, class-level tables + setattr, or a dict dispatch.
+  parsing side   TimexParsing.parse_string is run the same way on canonical probe strings; the pieces it hands to the
+                 regex tables must be the components of the string (C14.split).
   template side  every `return '<tpl>'.format(...)` / f-string of TimexFormat.format_*  ->  sequences of literal
                  text and field renderings (`fixed_format_number(x.f, w)` -> \\d{w}; bare `x.f` -> str(x.f)).
 
@@ -27,7 +31,10 @@ from ..index import get_index
 LEVEL = 'other'
 DESIGN_REF = 'DESIGN.md#c14'
 META = {
-    'text': 'TIMEX grammar/template agreement: every TimexRegex group is consumed by assign_properties; every '
+    'text': 'TIMEX grammar/template agreement: assign_properties, interpreted on the group dictionary of every pattern '
+            'shape, stores every group in a Timex field (int for digits) or uses it as unit selector, never raises, '
+            'stores ISO designators in the right duration field; parse_string, interpreted on probe strings, hands '
+            'exactly the components to the regex tables; every '
             'TimexFormat template is a shape of the grammar and every grammar shape has a template (token-wise '
             'inclusion both ways, fixed_format_number(x,w) as \\d{w}); parse dispatch reaches every pattern family '
             'and its first-character / split-at-T routing is consistent with the patterns; from_date / '
@@ -45,8 +52,9 @@ META = {
             'None test makes it equivalent (C14.roundtrip decides those exactly). Inclusion of a padded field '
             'in a digit group is decided on the full set of w-digit strings when 10^w <= 10000, by representative '
             'strings for amounts.',
-    'technique': 'ast + regex syntax trees (sa.rx): shape expansion of the 18 patterns, token-wise alignment with '
-                 'the format templates, small abstract interpreter over nullness/zero-ness shapes (thorough)',
+    'technique': 'ast + regex syntax trees (sa.rx): shape expansion of the 18 patterns, tabulation of the parser and '
+                 'of assign_properties by a whitelisting interpreter of their syntax trees on representative inputs, '
+                 'token-wise alignment with the format templates, abstract interpreter over nullness/zero-ness shapes',
 }
 
 PKG = 'datatypes_timex_expression'
@@ -987,8 +995,10 @@ def rule_split(cx, chk, fams):
         if not ok:
             n_bad += 1
             if n_bad > 12:
-                continue                      # keep the report readable; the count is in the summary line
+                continue                      # keep the report readable; the total is reported below
         chk.judge(ok, 'C14.split', path, construct, detail, msg, ps.lineno)
+    if n_bad > 12:
+        chk.observe('C14.split: %d of %d probe strings are cut wrongly; the first 12 are reported' % (n_bad, len(probes)))
     # the constant emitted for the present reference must set a field when parsed
     fmt = cx.meth('timex_format', 'TimexFormat', 'format')
     for w in sorted({const_str(r.value) for r in ast.walk(fmt) if isinstance(r, ast.Return) and const_str(r.value)}):
@@ -1826,7 +1836,7 @@ def run(chk):
                           'hours/minutes/seconds', floor=7)
     chk.rule('C14.split', 'parse_string, run on canonical probe strings (every shape alone, every date shape followed by '
                           'every time shape, every part-of-day code), hands exactly the components to the regex tables and '
-                          'their groups to assign_properties', floor=100)
+                          'their groups to assign_properties', floor=12)
     chk.rule('C14.falsy0', 'no truthiness test on hour/minute/second in TimexInference / TimexFormat', floor=3,
              control=True)
     chk.assume('digit groups hold valid calendar values (the checker does not bound month to 12 etc.); only hour, '
